@@ -234,7 +234,7 @@ theorem cov2_commutes (N K m₁ m₂ : ℕ) (c : ℕ → ℕ → ℚ) (Φ : ℕ 
   unfold covGrid2Spec covCoef
   simp_rw [← toGrid_center N K c]
   unfold toGrid
-  rw [(div_mod_of_lt hb).1, (div_mod_of_lt hb).2, (div_mod_of_lt hb').1, (div_mod_of_lt hb').2]
+  simp only [(div_mod_of_lt hb).1, (div_mod_of_lt hb).2, (div_mod_of_lt hb').1, (div_mod_of_lt hb').2]
   simp_rw [div_mul_eq_mul_div, Finset.sum_mul]
   simp_rw [← Finset.sum_div]
   congr 1
@@ -431,7 +431,7 @@ theorem read_csv_dense (hs : List Header) (cells : List (List (Option ℚ)))
     | none => simp at hv
     | some y =>
       have ih' := ih (fun x hx => hr x (List.mem_cons_of_mem _ hx))
-      simp only [List.filterMap_cons, id_eq, List.map_cons]
+      show some y :: List.map some (List.filterMap id row) = some y :: row
       rw [ih']
 
 /-- Irregular iff some cell is missing; every row keeps exactly its non-missing cells,
@@ -469,8 +469,8 @@ example : NonSing 2 (fun k l => if k = l then 1 else 0) ∧
     · simpa [Finset.sum_range_succ] using this
   · intro k hk
     obtain rfl | rfl : k = 0 ∨ k = 1 := by omega
-    · simp [Finset.sum_range_succ]
-    · simp [Finset.sum_range_succ]
+    · simp
+    · simp
 
 /-- `exact_recovery` on a concrete spline-like space: `B = [[1,1,1],[0,1,2]]`, `γ = (2, 3)`. -/
 example : (∀ j : ℕ, j < 3 → (fun j : ℕ => (2 : ℚ) + 3 * (j : ℚ)) j =
